@@ -47,6 +47,8 @@ def render_member(m, indent="  "):
         params = ", ".join(render_param(p) for p in m["params"])
         s += f"{indent}{attr}method {m['name']}({params});\n"
         return s
+    if k == "rawmember":
+        return m["text"]
     raise ValueError(k)
 
 
@@ -236,6 +238,11 @@ def case_tokens(case):
     toks = ["case", str(len(case["files"]))]
     for f in case["files"]:
         nodes = f.get("nodes", [])
+        if "text" in f or any(n["k"] == "raw" or (n["k"] == "interface" and any(m["k"] == "rawmember" for m in n["members"]))
+                              for n in nodes):
+            # text the grammar does not admit: the model only knows that this file fails to parse
+            toks += ["badfile", f["path"]]
+            continue
         toks += ["file", f["path"], str(len(nodes))]
         for n in nodes:
             k = n["k"]
@@ -292,7 +299,8 @@ def default_fsmodel(case):
     dirs = {_dir_of(p) for p in files} | {os.path.normpath(d) for d in case.get("incdirs", [])}
     dirs |= {os.path.normpath(d) for d in case.get("dirs", [])}
     main_dir = _dir_of(os.path.normpath(case["main"]))
-    incdirs = [os.path.normpath(d) for d in case.get("incdirs", [])] + [main_dir]
+    # exactly the -I list; the compiler model appends the main file's directory itself
+    incdirs = [os.path.normpath(d) for d in case.get("incdirs", [])]
     lookup, rel = [], []
     inc_strings = set()
     for f in case["files"]:
